@@ -683,7 +683,19 @@ func (w *W) opCreate() string {
 		src = "" // an existing Config keeps the metadata its values were created with
 	}
 	setSrc(tree, src)
+	LastStructForm = ""
 	in := Render(tree, rep, w.Opts)
+	if LastStructForm != "" {
+		w.R.Probe("input: struct source with " + LastStructForm)
+		if strings.HasPrefix(LastStructForm, "a, b and an inline") {
+			// (the settings of the inline Config were created without the metadata of this call)
+			for k, c := range tree.D {
+				if k != "a" && k != "b" {
+					setSrc(c, "")
+				}
+			}
+		}
+	}
 	spelled := ""
 	if rep == RepGeneric {
 		in, spelled = w.respell(in)
@@ -803,7 +815,11 @@ func (w *W) opMerge() string {
 		}
 		rep := t.Choose(RepCount, "rep")
 		FitRep(srcTree, rep)
+		LastStructForm = ""
 		srcVal = Render(srcTree, rep, w.Opts)
+		if LastStructForm != "" {
+			w.R.Probe("input: struct source with " + LastStructForm)
+		}
 		desc = RepName(rep) + " " + srcTree.Canon()
 		if rep == RepGeneric {
 			var spelled string
